@@ -63,7 +63,10 @@ Step(e) ==
                 ELSE Good(PP) /\ nreused' = nreused + e.reused /\ CountAlloc(e) /\ UNCHANGED ncyc
       [] e.op \in {"Use", "Check"} ->
            IF e.g \notin DOMAIN P.held \/ e.id \notin P.held[e.g] THEN Bad(e, "args", "-", "-")
-           ELSE LET PP == IF e.op = "Check" THEN P ELSE UseF(P, e.id, e.kind, e.a) IN
+           ELSE LET P1 == IF e.op = "Check" THEN P ELSE UseF(P, e.id, e.kind, e.a)
+                    \* a grown buffer has the capacity the runtime chose (logged); the spare cells are zero
+                    PP == IF e.op = "Use" /\ e.kind = "AppendGrow" /\ e.cap >= Len(P1.bufs[e.id].cells)
+                          THEN [P1 EXCEPT !.bufs[e.id].cells = @ \o [i \in 1..(e.cap - Len(@)) |-> 0]] ELSE P1 IN
                 IF ViewOf(PP, e.id, kind) # e.view
                 THEN /\ PrintT(<<"EXPECTED", l, ViewOf(PP, e.id, kind)>>)
                      /\ Bad(e, "use", "ok", e.kind)
@@ -72,6 +75,9 @@ Step(e) ==
            IF e.g \notin DOMAIN P.held \/ e.id \notin P.held[e.g] THEN Bad(e, "args", "-", "-")
            ELSE IF e.res # "ok" THEN Bad(e, "res", "ok", e.res)
            ELSE Good(PutF(P, e.g, e.id)) /\ UNCHANGED nreused /\ CountAlloc(e) /\ ncyc' = ncyc + 1
+      [] e.op = "Forget" ->
+           IF e.g \notin DOMAIN P.held \/ e.id \notin P.held[e.g] THEN Bad(e, "args", "-", "-")
+           ELSE Good(ForgetF(P, e.g, e.id)) /\ UNCHANGED <<nreused, nbad, ncyc>>
       [] e.op = "PutForeign" ->        \* C15: wrong total capacity must panic and modify nothing
            LET exp == IF e.cap = CapOf(P.alloc) THEN "ok" ELSE "panic" IN
            IF e.res # exp THEN Bad(e, "res", exp, e.res)
